@@ -1,5 +1,220 @@
-"""Tier G placeholder (filled in later)."""
+"""Tier G (parent side): obtain the programs the repository's generators emit for an enumerated family and analyse
+their *text* statically.  Only `produce_code` and the literal renderers run (in a child process); the emitted
+closures are never compiled or called by us.
+"""
+from __future__ import annotations
+
+import ast
+import json
+import os
+import re
+import subprocess
+import sys
+from dataclasses import dataclass, field
+from pathlib import Path
+from typing import Any, Dict, Iterator, List, Optional, Tuple
+
+from .core import AnalysisError, CheckResult, Finding, ModuleInfo, Repo, norm
+
+HERE = Path(__file__).resolve().parent
+_CACHE: Dict[Tuple[str, str, int, str], List[dict]] = {}
 
 
-def c04_checks(repo, tier, res, eng, seed):
-    return
+def run_child(repo: Repo, tier: str, seed: int, kinds: str) -> List[dict]:
+    key = (str(repo.root), tier, seed, kinds)
+    if key in _CACHE:
+        return _CACHE[key]
+    env = dict(os.environ)
+    env["PYTHONPATH"] = str(repo.src_root) + os.pathsep + str(HERE)
+    env["PYTHONDONTWRITEBYTECODE"] = "1"
+    env["PYTHONHASHSEED"] = "0"
+    try:
+        p = subprocess.run(["/venv/bin/python", str(HERE / "gen_child.py"), tier, str(seed), kinds],
+                           capture_output=True, text=True, env=env, timeout=600, cwd="/")
+    except subprocess.TimeoutExpired:
+        raise AnalysisError("tier G child timed out")
+    recs = []
+    for line in p.stdout.splitlines():
+        try:
+            recs.append(json.loads(line))
+        except json.JSONDecodeError:
+            continue
+    fatal = [r for r in recs if r.get("kind") == "fatal"]
+    if fatal or p.returncode != 0 or not recs or recs[-1].get("kind") != "done":
+        msg = fatal[0]["error"] + " | " + fatal[0].get("trace", "")[-400:] if fatal else p.stderr[-600:]
+        raise AnalysisError(f"tier G harness cannot drive the generators (API moved?): {msg}")
+    meta = recs[0]
+    af = meta.get("adaptix_file", "")
+    if not af.startswith(str(repo.src_root)):
+        raise AnalysisError(f"tier G child imported adaptix from {af}, not from {repo.src_root}")
+    _CACHE[key] = recs
+    return recs
+
+
+@dataclass
+class GenProg:
+    rec: dict
+    tree: ast.Module
+    fn: ast.FunctionDef
+    index: int
+
+    @property
+    def kind(self) -> str:
+        return self.rec["kind"]
+
+    @property
+    def ident(self) -> str:
+        r = self.rec
+        parts = [r["kind"], r.get("shape_name", ""), r.get("crown_name", ""), str(r.get("extra_move")),
+                 _policy(r.get("crown")), r.get("debug_trail", "")]
+        if "strict" in r:
+            parts.append("strict" if r["strict"] else "lax")
+        return "/".join(parts)
+
+    def origin_of(self, lineno: int) -> str:
+        """generator file:function that emitted the given (1-based) line of the program"""
+        o = self.rec.get("origins")
+        if o and 1 <= lineno <= len(o) and o[lineno - 1]:
+            return o[lineno - 1]
+        return "generated:?"
+
+    def origin_key(self, lineno: int) -> Tuple[str, str, int]:
+        o = self.origin_of(lineno)
+        parts = o.split(":")
+        if len(parts) >= 3:
+            return parts[0], parts[1], int(parts[2]) if parts[2].isdigit() else 0
+        return "generated:" + self.kind, "?", 0
+
+
+def _policy(c) -> str:
+    if not isinstance(c, dict):
+        return ""
+    if c.get("t") in ("dict", "list"):
+        return c.get("extra", "") or ""
+    return ""
+
+
+def parse_programs(recs: List[dict], kind: str) -> List[GenProg]:
+    out = []
+    for i, r in enumerate(recs):
+        if r.get("kind") != kind:
+            continue
+        if r.get("error"):
+            raise AnalysisError(f"generator raised on a valid configuration ({r.get('shape')}/{r.get('crown')}): "
+                                f"{r['error']}")
+        try:
+            tree = ast.parse(r["source"])
+        except SyntaxError as e:
+            raise AnalysisError(f"emitted program does not parse ({r.get('shape_name')}/{r.get('crown_name')}): {e}")
+        fn = tree.body[0]
+        if not isinstance(fn, ast.FunctionDef):
+            raise AnalysisError("emitted program is not a single function definition")
+        out.append(GenProg(r, tree, fn, i))
+    return out
+
+
+def abstract_construct(text: str) -> str:
+    """Normalise a generated statement so that the same generator construct gets the same key across programs:
+    path suffixes, field ids and keys are replaced by placeholders."""
+    t = re.sub(r"\b(data|extra|known_keys|required_keys|has_not_found_error|result|placeholder|sieve|dfl)_\d+\b", r"\1_N", text)
+    t = re.sub(r"\b(f|r|loader|dumper|dfl|accessor_getter|trail_element|access_error)_[A-Za-z]\w*\b", r"\1_F", t)
+    t = re.sub(r"'(?:[^'\\]|\\.)*'", "'K'", t)
+    t = re.sub(r"\b\d+\b", "N", t)
+    return t
+
+
+# ------------------------------------------------------------------------------------------------ prelude
+def prelude_for(repo: Repo, ns: Dict[str, dict]) -> Tuple[str, List[str]]:
+    """Python text that binds every namespace name of a generated program to something the resolver understands.
+    Returns (prelude, user_code_names)."""
+    lines = ["mediator = None"]
+    user: List[str] = []
+    exc_by_name = {}
+    for ci in repo.all_classes():
+        exc_by_name.setdefault(ci.name, ci)
+    for name, d in ns.items():
+        tag = d.get("tag", "")
+        if tag.startswith(("loader:", "dumper:")):
+            lines.append(f"{name} = mediator.mandatory_provide(None)")
+        elif tag == "as_is_stub":
+            lines.append(f"{name} = lambda x: x")
+        elif tag in ("constructor", "saturator", "extractor") or tag.startswith(("sieve:", "factory:")):
+            user.append(name)
+        elif tag.startswith(("default:", "sievedefault:")):
+            lines.append(f"{name} = object()")
+        elif "class" in d:
+            cls = d["class"]
+            mod, _, cname = cls.rpartition(".")
+            if mod.startswith("adaptix") and cname in exc_by_name:
+                ci = exc_by_name[cname]
+                lines.append(f"from {ci.module.name} import {cname} as {name}")
+            else:
+                lines.append(f"from {mod} import {cname} as {name}")
+        elif "callable" in d and d["callable"].startswith("adaptix.") and d["callable"].rpartition(".")[2].isidentifier():
+            mod, _, fname = d["callable"].rpartition(".")
+            lines.append(f"from {mod} import {fname} as {name}")
+        elif d["type"] in ("builtins.set", "builtins.frozenset") and "items" in d:
+            items = ", ".join(repr(x) for x in d["items"])
+            lines.append(f"{name} = {{{items}}}" if d["items"] else f"{name} = set()")
+        elif d["type"] == "builtins.str":
+            lines.append(f"{name} = 'text'")
+        elif d["type"] == "builtins.object":
+            lines.append(f"{name} = object()")
+        elif d["type"] == "builtins.type" or d["type"] == "abc.ABCMeta":
+            lines.append(f"{name} = object")
+        elif "callable" in d:
+            user.append(name)
+        else:
+            lines.append(f"{name} = object()")
+    return "\n".join(lines) + "\n", user
+
+
+def synthetic_module(repo: Repo, prog: GenProg) -> Tuple[ModuleInfo, ast.FunctionDef, List[str], int]:
+    prelude, user = prelude_for(repo, prog.rec.get("namespace", {}))
+    offset = prelude.count("\n")
+    m = repo.synthetic_module(f"{prog.kind}_{prog.index}", prelude + prog.rec["source"])
+    fn = [n for n in m.tree.body if isinstance(n, ast.FunctionDef)][-1]
+    return m, fn, user, offset
+
+
+# ------------------------------------------------------------------------------------------------ C04 on tier G
+def c04_checks(repo: Repo, tier: str, res: CheckResult, eng, seed: int) -> None:
+    from .esc import USER, Undetermined
+    from .values import FnCtx
+    from .props.c04 import allowed, collect_rule
+    recs = run_child(repo, tier, seed, "loader")
+    progs = parse_programs(recs, "loader")
+    n = 0
+    sampled = 0
+    for prog in progs:
+        m, fn, user, offset = synthetic_module(repo, prog)
+        fctx = FnCtx(fn, m, None, None)
+        eng.user_names = set(user)
+        try:
+            esc, _ = eng.analyze(fctx)
+        except Undetermined as e:
+            raise AnalysisError(f"ESC undetermined for generated program {prog.ident}: {e}")
+        finally:
+            eng.user_names = set()
+        n += 1
+        res.evaluated("G:" + prog.ident, True)
+        bad = {k: o for k, o in esc.items() if not allowed(eng.H, k[0])}
+        if sampled < 3:
+            res.sample({"generated_program": prog.ident, "may_escape": sorted({k[0] for k in esc}),
+                        "verdict": "violation" if bad else "ok"}, limit=20)
+            sampled += 1
+        for (exc, _q, _c), o in sorted(bad.items()):
+            gfile, gfunc, gline = prog.origin_key(o.line - offset)
+            res.add(Finding(
+                "C04", "ESC.generated-escape", gfile, gfunc, f"{abstract_construct(o.construct)} -> {exc}",
+                f"generated model loader ({prog.ident}): `{o.construct}` may raise {exc} on invalid input and no "
+                f"enclosing handler translates it (emitted by {gfile}:{gfunc}:{gline})",
+                gline, extra={"program": prog.ident},
+            ))
+        # collect rule on the emitted program
+        def rekey(h, appended, construct, prog=prog, offset=offset):
+            # the collecting statement, not the `except` line, identifies the generator construct
+            gfile, gfunc, gline = prog.origin_key(appended.lineno - offset)
+            return gfile, gfunc, gline, abstract_construct(construct)
+        collect_rule(repo, eng, fn, m, "model_loader", res, rekey=rekey)
+    res.count("ESC.generated-model-loaders", n, 200)
